@@ -26,6 +26,12 @@ Op language (a case = everything from a `reset` to the next one):
                                        reading.  Same as the N-item `reqs`.
     topo n2=<0|1|2|3>                  the cluster view changes: node n2 (chat-2, hall-2) is now Init/Working/Retiring/Retired
                                        (n1 with gate-1, chat-1, hall-1 stays Working; reset makes n2 Working again)
+    frame body=<acts>                  the synchronous frame of ONE request handler, driven directly through the real
+                                       CallWithSerialize / CallMethod / SafeCall with a completion function shaped like
+                                       the front's own: acts c = complete with a result, m = complete with a result on
+                                       which the completion function panics, e = complete with an error, p = panic;
+                                       "-" = the empty body.  Observation `done=<x…>`: what the completion function
+                                       received and processed, in order (d = data, e = error).  No effect on the case.
     adv                                5 s of virtual time pass
 
 A route may contain `%xx` escapes: raw bytes (to send routes that are not valid UTF-8); the model sees
@@ -123,6 +129,47 @@ def showInv (x : String × String × String × Nat) : String :=
 
 def showObs (rs : List (Nat × Nat × Result)) (is : List (String × String × String × Nat)) : String :=
   "r=" ++ join "," (sortStrings (rs.map showWire)) ++ " i=" ++ join "," (sortStrings (is.map showInv))
+
+/-! ### op `frame`: `callMethod` of Model/ClientServe.lean -/
+
+def actsOf : List Char → Option (List Act)
+  | [] => some []
+  | 'c' :: cs => (actsOf cs).map (Act.complete (.data "f" "scr" "run" 0) true :: ·)
+  | 'm' :: cs => (actsOf cs).map (Act.complete (.data "f" "scr" "run" 0) false :: ·)
+  | 'e' :: cs => (actsOf cs).map (Act.complete .error true :: ·)
+  | 'p' :: cs => (actsOf cs).map (Act.panic :: ·)
+  | _ => none
+
+def parseBody (ws : List String) : Option (List Act) :=
+  match kv ws "body" with
+  | none => none
+  | some b => if b = "-" then some [] else actsOf b.toList
+
+def showDone (rs : List Result) : String :=
+  "done=" ++ String.ofList (rs.map fun r => match r with | .error => 'e' | _ => 'd')
+
+def modelFrame (ws : List String) : String :=
+  match parseBody ws with
+  | none => "bad-op"
+  | some body => showDone (callMethod true body)
+
+/-- the property on the implementation's observation of one frame: a body that calls its completion
+function at most once and is not an empty frame is completed exactly once; and whatever the body
+does, the framework never adds a completion to one that went through. -/
+def specFrame (ws : List String) (obs : String) : String :=
+  match parseBody ws, kv (words obs) "done" with
+  | some body, some d =>
+    let calls := (body.filter fun a => match a with | .complete .. => true | .panic => false).length
+    let n := d.length
+    let b := (kv ws "body").getD ""
+    if body ≠ [] ∧ calls ≤ 1 ∧ n = 0 then
+      s!"VIOLATION C02/handler-frame-never-completed body={b}: the handler panicked or its completion did not go through, and the request was not completed"
+    else if n > 1 ∧ n > calls then
+      s!"VIOLATION C02/handler-frame-completed-twice body={b}: {n} completions ({d}) for {calls} call(s) of the completion function"
+    else if body ≠ [] ∧ calls ≤ 1 ∧ n ≠ 1 then
+      s!"VIOLATION C02/handler-frame-completed-twice body={b}: {n} completions ({d})"
+    else "ok"
+  | _, _ => "ok"
 
 /-! ### model mode -/
 
@@ -232,6 +279,7 @@ def modelStep (m : MState) (line : String) : MState × String :=
     | some c => ({ m with hsing := m.hsing.filter (· ≠ c) }, "ok")
     | none => (m, "bad-op")
   | some "wrap" => (m, "ok")
+  | some "frame" => (m, modelFrame ws)
   | some "topo" =>
     match kvNat ws "n2" with
     | some k => ({ m with n2 := k }, "ok")
@@ -281,7 +329,8 @@ structure SState where
   hsing : List Nat := []
   n2 : Nat := 1
 
-def zooMethods : List String := ["echo", "fail", "boom", "slow", "late", "s29", "s33", "tell", "nan", "fail0", "login", "loginw"]
+def zooMethods : List String := ["echo", "fail", "boom", "slow", "late", "s29", "s33", "tell", "nan", "fail0", "login", "loginw",
+  "okboom", "mboom", "slowboom"]
 
 /-- the service a route's type names for this client (the tie's routing rules, stated directly) -/
 def namedService (keys : List (Nat × String)) (n2 : Nat) (c : Nat) (t : String) : Option String :=
@@ -314,7 +363,8 @@ def classify (keys : List (Nat × String)) (n2 : Nat) (it : Item) : Expect × St
         if ¬ known then (.error, "unknown-method", some svc, false)
         else if g = "zoob" ∧ m = "hang" then (.error, "silent-handler", some svc, true)
         else if m = "tell" then (.error, "notify-method", some svc, true)
-        else if m = "fail" ∨ m = "boom" then (.error, "handler-failure", some svc, true)
+        -- mboom: the handler's result makes the completion function panic — a handler failure
+        else if m = "fail" ∨ m = "boom" ∨ m = "mboom" then (.error, "handler-failure", some svc, true)
         else if m = "nan" ∨ m = "fail0" then ((if t = "gate" then .error else .errorOrBlank), "handler-failure", some svc, true)
         else if (m = "late" ∨ m = "s33") ∧ t ≠ "gate" then (.dataOrError svc m v, "slow-handler", some svc, true)
         else (.data svc m v, "", some svc, true)
@@ -487,6 +537,7 @@ def specStep (st : SState) (line : String) : SState × String :=
     | some "topo" => ({ st with n2 := (kvNat ws "n2").getD st.n2 }, "ok")
     | some "reqs" | some "flood" => specReqs st ws obs false
     | some "pipe" => specReqs st ws obs true
+    | some "frame" => (st, specFrame ws obs)
     | some "adv" => observe st obs false
     | some "flush" => observe st obs true
     | _ => (st, "ok")
